@@ -120,8 +120,8 @@ func c19Processor(r *obs.Run, p c19ProcPlan) {
 	old := runtime.GOMAXPROCS(p.Procs)
 	defer runtime.GOMAXPROCS(old)
 	threads := p.Threads
-	if threads > p.Procs {
-		threads = p.Procs // NewProcessor clamps to GOMAXPROCS
+	if threads > p.Procs || threads < 1 {
+		threads = p.Procs // NewProcessor: "if threads is greater GOMAXPROCS or less than 1 then threads is set to GOMAXPROCS"
 	}
 	ev := &c19Events{}
 	var arrived int32
@@ -886,6 +886,10 @@ func c19PromiseConc(r *obs.Run, hook bool) {
 	if succ != 1 {
 		r.Violate("promise-settled-not-once", fmt.Sprintf("%d Fulfill/Fail calls succeeded on one immutable promise", succ), w)
 	}
+	if succ == 1 && res != porcupine.Illegal && rng.Intn(3) == 0 {
+		concurrent.VerifSetStep(nil) // no injected delay: contention is the point here
+		c19HammerSettled(r, p, ng, w)
+	}
 	r.Count("promise_histories_checked", 1)
 	if late > 0 {
 		r.Count("promise_late_settle_histories", 1)
@@ -907,15 +911,60 @@ func c19PromiseConc(r *obs.Run, hook bool) {
 	}
 }
 
+// c19HammerSettled: the promise has been settled (once) and every call of the history has returned. Now ng goroutines
+// ask it at the same time, 150 calls each: Waits, and every tenth call a Fulfill or Fail that must be refused. Every
+// Wait must come back with the one value the promise has (a goroutine that never returns is the watcher's business).
+func c19HammerSettled(r *obs.Run, p *concurrent.Promise, ng int, w map[string]interface{}) {
+	first := <-p.Wait()
+	var wg sync.WaitGroup
+	var odd, accepted, waits int64
+	start := make(chan struct{})
+	for g := 0; g < ng; g++ {
+		wg.Add(1)
+		go func(g int) {
+			defer wg.Done()
+			<-start
+			for k := 0; k < 150; k++ {
+				switch {
+				case k%10 == 3+g:
+					if p.Fulfill(1000+k) == nil {
+						atomic.AddInt64(&accepted, 1)
+					}
+				case k%10 == 8-g:
+					if p.Fail(2000+k, errors.New("late failure")) {
+						atomic.AddInt64(&accepted, 1)
+					}
+				default:
+					got := <-p.Wait()
+					atomic.AddInt64(&waits, 1)
+					if got.Value != first.Value || (got.Err == nil) != (first.Err == nil) {
+						atomic.AddInt64(&odd, 1)
+					}
+				}
+			}
+		}(g)
+	}
+	close(start)
+	wg.Wait()
+	if accepted > 0 {
+		r.Violate("promise-settled-not-once", fmt.Sprintf("%d Fulfill/Fail calls were accepted by an immutable promise that had been settled before, while %d goroutines were asking it", accepted, ng), w)
+	}
+	if odd > 0 {
+		r.Violate("promise-wait-value", fmt.Sprintf("%d of %d Waits on a settled immutable promise returned something else than its value (%v, failed=%v)", odd, waits, first.Value, first.Err != nil), w)
+	}
+	r.Count("settled_promises_asked_by_several_goroutines_at_once", 1)
+	r.Count("waits_on_settled_promises_under_contention", waits)
+}
+
 func init() {
 	register(&obs.Monitor{
 		ID:    "C19",
 		Level: "exploration",
-		Rule: "per case one of: (a) a Processor run - threads 1..16 x result buffer {0,1,n} x operations {0, <threads, =threads, >>threads} x queue capacity x GOMAXPROCS {1,2,4,16}, unique operation ids, every fifth operation failing, in a quarter of the runs one operation panicking (its result must carry the panic as an error), results consumed and counted (exactly-once; half of the failing operations return a particular error value that must come back itself or wrapped; every operation executed once), then Wait and one more receive that must find the channel closed; " +
+		Rule: "per case one of: (a) a Processor run - threads 1..16 (one run in twelve 0, -1, -1000 or the least int, which NewProcessor documents as GOMAXPROCS) x result buffer {0,1,n} x operations {0, <threads, =threads, >>threads} x queue capacity x GOMAXPROCS {1,2,4,16}, unique operation ids, every fifth operation failing, in a quarter of the runs one operation panicking (its result must carry the panic as an error), results consumed and counted (exactly-once; half of the failing operations return a particular error value that must come back itself or wrapped; every operation executed once), then Wait and one more receive that must find the channel closed; " +
 			"the Processor is used by several callers at once and in every order the statement allows: operators through Process/Close or, in half of the runs, sent on the caller's queue and the queue closed directly; 1..3 submitting and 1..3 consuming goroutines; in half of the runs two goroutines in Wait from the start; always two goroutines in Wait at the end and one more Wait after them, each of which must return with every worker past its exit hook and Working()==0; " +
 			"in half of the runs the closed-channel receive also before any final Wait; with a result buffer that holds everything also Close, Wait, Wait and only then the results; " +
 			"half of the runs park every exiting worker after it returned its token until all have (bounded); (b) concurrent.Map with a recording Mapper (Len 0..1000, threads 1..16, chunk caps) - recorded slices must partition the input, one result per chunk (one chunk in a third of the runs returns (nil, nil)), every chunk executed once; one call in four goes through PromiseMap and two Waits on its promise; (c) sequential Fulfill/Fail/Wait laws (values include nil) for the 8 flag combinations against a model; " +
-			"(d) concurrent histories of 2..4 goroutines issuing Fulfill/Fail/Wait on one immutable promise, timestamps from one atomic counter, checked with porcupine against a write-once register (Wait enabled only when set), half of them with a delay injected inside Wait between take and put-back. " +
+			"(d) concurrent histories of 2..4 goroutines issuing Fulfill/Fail/Wait on one immutable promise, timestamps from one atomic counter, checked with porcupine against a write-once register (Wait enabled only when set), half of them with a delay injected inside Wait between take and put-back; a third of the settled promises are then asked by all goroutines at once, 150 calls each (Waits that must return the one value, and late Fulfill/Fail calls that must be refused). " +
 			"Race detector on; panics/double close and all-goroutines-asleep deadlocks are reported from the child's exit. Non-trivial = >=1 operation/chunk/3 history operations; distinct = plan + hook event order / call-return order",
 		Batches: func(t string) int {
 			if t == "thorough" {
@@ -947,8 +996,12 @@ func c19Case(r *obs.Run, i int) {
 	case 0, 1:
 		procs := []int{1, 2, 4, 16}[rng.Intn(4)]
 		threads := 1 + rng.Intn(16)
+		if rng.Intn(12) == 0 { // "any number of worker threads": a caller passing none, or a computed count that went negative
+			threads = []int{0, 0, -1, -1000, math.MinInt}[rng.Intn(5)]
+			r.Count("processor_runs_with_a_thread_count_below_one", 1)
+		}
 		eff := threads
-		if eff > procs {
+		if eff > procs || eff < 1 {
 			eff = procs
 		}
 		ops := []int{0, 0, maxInt(eff-1, 0), eff, 3*eff + rng.Intn(40), 1 + rng.Intn(200)}[rng.Intn(6)]
